@@ -513,6 +513,29 @@ def run(ctx):
                          {'stream': 'sendloop', 'case': {'messages': inj}, 'impl_trace': res,
                           'oracle': {'verdict': 'fail', 'clause': 'every enqueued transmission goes out once, not before and at most one '
                                                                    'send-raster step after its scheduled time'}})
+        # the same runs against the Coq model of the loop (Wsd/SendLoop.v): the events the real loop saw - enqueues
+        # and polls with the clock value, exact float order - are replayed by `srun`; transmissions (clock, due time)
+        # in order and the due times left in the queue must agree
+        m_cases = []
+        for inj, res in zip(sl_cases, r['sendloop']):
+            evs = res.get('events') or []
+            if res['error'] or any(e[1] is None for e in evs) or len(evs) > 400:
+                continue
+            inp = [Raw(f'(Put ({e[1]}, {e[2]}))') if e[0] == 'P' else Raw(f'(Tick {e[1]})') for e in evs]
+            m_cases.append((coqlit(inp), coqlit((Raw('(' + coqlit([tuple(x) for x in res['sent_x']]) + ' : list (Z * Z))'), Raw('(' + coqlit(res['left_x']) + ' : list Z)'))), inj, res))
+        m_cases = m_cases[:ctx.n(60, 600)]
+        mism, err = ctx.coq_mism('sendloop', 'From Coq Require Import List ZArith Bool.\nImport ListNotations.\n'
+                                 'From SDC Require Import Wsd.SendLoop.\nOpen Scope Z_scope.',
+                                 'prod_eqb (list_eqb (prod_eqb Z.eqb Z.eqb)) zl_eqb', 'fun es => observe (srun es)',
+                                 [(a_, b_) for a_, b_, *_ in m_cases], shard=40, deps=('Wsd/SendLoop.vo',))
+        if err:
+            ctx.broken('correspondence', 'sendloop (coq evaluation)', err)
+        for i in mism[:1]:
+            ctx.broken('correspondence', 'sendloop model', {'disagreements': len(mism), 'first': {'messages': m_cases[i][2],
+                                                                                                  'impl': m_cases[i][3]}})
+        ctx.count('sendloop-model', len(m_cases), [c[0] for c in m_cases],
+                  events_per_case_max=max((len(c[3]['events']) for c in m_cases), default=0),
+                  transmissions=sum(len(c[3]['sent_x']) for c in m_cases))
         ctx.count('sendloop', len(sl_cases), [json.dumps(x, sort_keys=True) for x in sl_cases],
                   messages_in_flight={str(k): sum(1 for c in sl_cases if len(c) == k) for k in (1, 2, 3, 4)},
                   lateness_histogram_10ms={str(k): v for k, v in sorted(late_hist.items())})
